@@ -100,6 +100,9 @@ impl<'a> Case<'a> {
         match &self.group_ref {
             None => self.group_ref = Some((form, g)),
             Some((rf, ro)) => {
+                if self.l.count_pairs {
+                    *self.l.pairs.entry((*rf, form)).or_insert(0) += 1;
+                }
                 if ro != &g {
                     let f = self.mk(
                         vec!["C15"],
